@@ -885,6 +885,9 @@ class TemplateModel(object):
             template, amplitude_threshold=amplitude_threshold)
         channel_ids = channel_ids if channel_ids is not None else channel_ids_
         template = template[:, channel_ids]
+        if channel_ids is not channel_ids_:
+            # The amplitudes of the channels requested by the caller.
+            amplitude = template.max(axis=0) - template.min(axis=0)
         assert template.ndim == 2
         assert template.shape[1] == channel_ids.shape[0]
         return Bunch(
